@@ -8,7 +8,7 @@ CONSTANTS
   SlotNode <- Slot2
   Menu <- MenuMulti
   MaxReq <- MR1x3
-  AnswerKinds <- AKvals
+  AnswerKinds <- AKvalsE
   MaxMsg = 4
   TimeoutOn = FALSE
   MaxBkClose = 0
